@@ -3,14 +3,23 @@
 package timesafeguard
 
 import (
+	"encoding/json"
+	"encoding/pem"
+	"flag"
 	"fmt"
 	"io"
 	"log"
 	"math/rand"
+	"net"
+	"net/http"
+	"net/http/httptest"
+	"os"
+	"path/filepath"
 	"strings"
 	"testing"
 	"time"
 
+	"github.com/robustirc/internal/health"
 	"github.com/robustirc/robustirc/internal/verifrep"
 )
 
@@ -175,5 +184,126 @@ func TestVerifC19(t *testing.T) {
 		if k == 0 {
 			rep.Sample(w)
 		}
+	}
+}
+
+// ---------------------------------------------------------------- layer 2: the real measurement path
+
+type c19Server struct {
+	srv    *httptest.Server
+	offset time.Duration
+	pre    time.Duration // delay before the clock is read
+	post   time.Duration // delay after the clock is read
+	peers  []string
+}
+
+func c19NewServer(offset, pre, post time.Duration) *c19Server {
+	p := &c19Server{offset: offset, pre: pre, post: post}
+	p.srv = httptest.NewTLSServer(http.HandlerFunc(func(w http.ResponseWriter, r *http.Request) {
+		time.Sleep(p.pre)
+		now := time.Now().Add(p.offset)
+		time.Sleep(p.post)
+		w.Header().Set("Content-Type", "application/json")
+		json.NewEncoder(w).Encode(health.ServerStatus{State: "Follower", CurrentTime: now, Peers: p.peers})
+	}))
+	return p
+}
+
+func (p *c19Server) addr() string { return strings.TrimPrefix(p.srv.URL, "https://") }
+
+func c19Dead() string {
+	ln, err := net.Listen("tcp", "127.0.0.1:0")
+	if err != nil {
+		panic(err)
+	}
+	defer ln.Close()
+	return ln.Addr().String()
+}
+
+// TestVerifC19Real drives SynchronizedWithNetwork / SynchronizedWithMasterAndNetwork
+// against TLS status servers whose clock is skewed and whose handlers delay.
+// One-sided oracle: whatever the delays were, a node may only be let in if
+// every peer that answered has a true offset below the election timeout.
+func TestVerifC19Real(t *testing.T) {
+	rep := verifrep.Open()
+	defer rep.Close()
+	log.SetOutput(io.Discard)
+	rng := rand.New(rand.NewSource(verifrep.Seed()))
+	n := verifrep.Cases(12)
+	dir := verifrep.Dir()
+	saved := *DisableTimesafeguard
+	defer func() { *DisableTimesafeguard = saved }()
+	*DisableTimesafeguard = false
+	offsets := []time.Duration{0, 20 * time.Millisecond, -300 * time.Millisecond, 1500 * time.Millisecond, -1900 * time.Millisecond,
+		2100 * time.Millisecond, -2500 * time.Millisecond, 5 * time.Second, -time.Hour, 3 * time.Hour}
+	for k := 0; k < n; k++ {
+		np := rng.Intn(3) + 1
+		var peers []*c19Server
+		var pemBytes []byte
+		maxAbs := time.Duration(0)
+		for i := 0; i < np; i++ {
+			off := offsets[rng.Intn(len(offsets))]
+			if rng.Intn(2) == 0 {
+				off = offsets[rng.Intn(3)] // mostly healthy networks
+			}
+			p := c19NewServer(off, time.Duration(rng.Intn(60))*time.Millisecond, time.Duration(rng.Intn(60))*time.Millisecond)
+			peers = append(peers, p)
+			pemBytes = append(pemBytes, pem.EncodeToMemory(&pem.Block{Type: "CERTIFICATE", Bytes: p.srv.Certificate().Raw})...)
+			a := off
+			if a < 0 {
+				a = -a
+			}
+			if a > maxAbs {
+				maxAbs = a
+			}
+		}
+		ca := filepath.Join(dir, fmt.Sprintf("ca%d.pem", k))
+		os.WriteFile(ca, pemBytes, 0600)
+		flag.Set("tls_ca_file", ca)
+		const self = "127.0.0.1:13001"
+		list := []string{self}
+		for _, p := range peers {
+			list = append(list, p.addr())
+		}
+		ndead := rng.Intn(3)
+		for i := 0; i < ndead; i++ {
+			list = append(list, c19Dead())
+		}
+		rng.Shuffle(len(list), func(a, b int) { list[a], list[b] = list[b], list[a] })
+		viaJoin := rng.Intn(3) == 0
+		t0 := time.Now()
+		var err error
+		if viaJoin {
+			// the join target answers and names the other peers
+			peers[0].peers = list
+			err = SynchronizedWithMasterAndNetwork(self, peers[0].addr(), "secret")
+		} else {
+			err = SynchronizedWithNetwork(self, list, "secret")
+		}
+		elapsed := time.Since(t0)
+		w := map[string]interface{}{"peers": len(peers), "dead": ndead, "max_true_offset": maxAbs.String(), "via_join": viaJoin, "elapsed": elapsed.String()}
+		switch {
+		case err == nil && maxAbs >= ElectionTimeout:
+			rep.Violation("C19", "real:accepted-skewed-peer", fmt.Sprintf("the node was let in although an answering peer's clock is off by %v (%d peers answered, %d did not, via -join: %v)", maxAbs, len(peers), ndead, viaJoin), w)
+		case err != nil && maxAbs < 500*time.Millisecond:
+			if elapsed < 500*time.Millisecond {
+				rep.Violation("C19", "real:refused-healthy-network", fmt.Sprintf("refused although every answering peer is within %v and the whole measurement took %v: %.200s", maxAbs, elapsed, err), w)
+			} else {
+				rep.Inconclusive("C19", fmt.Sprintf("healthy network refused, but the measurement took %v on this machine", elapsed))
+			}
+		}
+		verdict := "accept"
+		if err != nil {
+			verdict = "refuse"
+		}
+		rep.Case(fmt.Sprintf("real|%s|%d|%d|%v|skewed=%v", verdict, len(peers), ndead, viaJoin, maxAbs >= ElectionTimeout))
+		rep.Obs("real."+verdict, 1)
+		if k == 0 {
+			rep.Sample(w)
+		}
+		for _, p := range peers {
+			p.srv.Close()
+		}
+		os.Remove(ca)
 	}
 }
